@@ -1,6 +1,7 @@
 package main
 
 import (
+	"fmt"
 	"go/token"
 	"go/types"
 
@@ -389,6 +390,7 @@ func checkC03(p *Prog, r *Report) {
 			r.Cond(ok2, "C03/ERROR-PROPAGATES", funcKey(fn)+" → "+name, p.Pos(instrPos(c)), why)
 		})
 	}
+	checkDeferKeepsError(p, r)
 	r.Trust("MD4 detects corruption (probabilistic); renameio.CloseAtomicallyReplace is the only operation that makes the temp file visible under the final name")
 	r.Uncovered("that the peer's trailer is the hash of what the peer read; probability of MD4 collisions")
 }
@@ -480,12 +482,49 @@ func checkVerifyGate(p *Prog, r *Report, fn *ssa.Function, closeCall ssa.CallIns
 		r.Bad("C03/HASH-SEES-ALL", base+" [multiwriter]", pos, "no io.MultiWriter found")
 		return
 	}
+	// the values that are the pending file: the variable may live in a cell when a
+	// function literal (e.g. a deferred cleanup) captures it
+	outs := []ssa.Value{out}
+	if ld, ok := out.(*ssa.UnOp); ok && ld.Op == token.MUL {
+		if cell, ok := ld.X.(*ssa.Alloc); ok {
+			if v := unwrapLocal(out); v != out {
+				outs = []ssa.Value{v}
+				var addLoads func(addr ssa.Value)
+				addLoads = func(addr ssa.Value) {
+					for _, ref := range *addr.Referrers() {
+						switch x := ref.(type) {
+						case *ssa.UnOp:
+							if x.Op == token.MUL {
+								outs = append(outs, x)
+							}
+						case *ssa.MakeClosure:
+							lit := x.Fn.(*ssa.Function)
+							for i, bv := range x.Bindings {
+								if bv == addr {
+									addLoads(lit.FreeVars[i])
+								}
+							}
+						}
+					}
+				}
+				addLoads(cell)
+			}
+		}
+	}
+	isOut := func(v ssa.Value) bool {
+		for _, o := range outs {
+			if v == o || derivesFrom(v, o) {
+				return true
+			}
+		}
+		return false
+	}
 	elems := variadicElems(mw.Common().Args[0])
 	okMW := len(elems) == 2
 	if okMW {
 		var hasOut, hasH bool
 		for _, e := range elems {
-			if derivesFrom(e, out) {
+			if isOut(e) {
 				hasOut = true
 			}
 			if derivesFrom(e, hs.newCall) {
@@ -499,11 +538,22 @@ func checkVerifyGate(p *Prog, r *Report, fn *ssa.Function, closeCall ssa.CallIns
 		r.Cond(w.Common().Value == ssa.Value(mw), "C03/HASH-SEES-ALL", base+" [write goes to multiwriter]", p.Pos(instrPos(w)), "a Write that bypasses the MultiWriter reaches the file or the hash but not both")
 	}
 	// every referrer of out
-	if refs := out.Referrers(); refs != nil {
+	for _, o := range outs {
+		refs := o.Referrers()
+		if refs == nil {
+			continue
+		}
 		for _, ref := range *refs {
 			switch x := ref.(type) {
 			case *ssa.DebugRef:
 				continue
+			case *ssa.Store:
+				if x.Val == o && len(outs) > 1 {
+					if _, isCell := x.Addr.(*ssa.Alloc); isCell && x.Val == outs[0] {
+						continue // the one store into the variable's cell
+					}
+				}
+				r.Bad("C03/HASH-SEES-ALL", base+" [pending file use]", p.Pos(instrPos(ref)), "the pending file is stored somewhere else")
 			case ssa.CallInstruction:
 				switch calleeName(x) {
 				case fnCleanup, fnCloseReplace, fnPFName:
@@ -544,4 +594,94 @@ func checkVerifyGate(p *Prog, r *Report, fn *ssa.Function, closeCall ssa.CallIns
 			}
 		}
 	}
+}
+
+// checkDeferKeepsError: a function literal (typically deferred) that assigns
+// to the enclosing function's named error result must not be able to replace a
+// non-nil error by nil: the store is dominated by a test that the result is
+// still nil, or the stored value is never nil. Otherwise the verification
+// failure of receiveData (or any error below it) can be turned into success on
+// the way out.
+func checkDeferKeepsError(p *Prog, r *Report) {
+	rule := "C03/DEFER-KEEPS-ERROR"
+	r.Rule(rule, "in the receiver, daemon and client packages no function literal overwrites the enclosing function's named error result unless the result is known to be nil at that point or the new value is never nil", 0)
+	nFn, nStores := 0, 0
+	for _, fn := range p.ModFuncs {
+		pk := pkgPathOfFunc(fn)
+		if isTestSupport(pk) || fn.Parent() != nil || fn.Blocks == nil {
+			continue
+		}
+		// named error results that live in cells: the Allocs the returns load from
+		cells := map[*ssa.Alloc]bool{}
+		for _, b := range fn.Blocks {
+			ret, ok := lastInstr(b).(*ssa.Return)
+			if !ok {
+				continue
+			}
+			for i, rv := range ret.Results {
+				if fn.Signature.Results().At(i).Name() == "" {
+					continue // unnamed: a cell here is go/ssa's lowering of range-over-func returns
+				}
+				if ld, ok := rv.(*ssa.UnOp); ok && ld.Op == token.MUL && isErrorType(ld.Type()) {
+					if a, ok := ld.X.(*ssa.Alloc); ok {
+						cells[a] = true
+					}
+				}
+			}
+		}
+		if len(cells) == 0 {
+			continue
+		}
+		nFn++
+		var visit func(lit *ssa.Function, bind map[*ssa.FreeVar]*ssa.Alloc)
+		visit = func(lit *ssa.Function, bind map[*ssa.FreeVar]*ssa.Alloc) {
+			for _, b := range lit.Blocks {
+				for _, in := range b.Instrs {
+					switch x := in.(type) {
+					case *ssa.MakeClosure:
+						sub := x.Fn.(*ssa.Function)
+						nb := map[*ssa.FreeVar]*ssa.Alloc{}
+						for i, bv := range x.Bindings {
+							if a, ok := bv.(*ssa.Alloc); ok && cells[a] {
+								nb[sub.FreeVars[i]] = a
+							} else if fv, ok := bv.(*ssa.FreeVar); ok && bind[fv] != nil {
+								nb[sub.FreeVars[i]] = bind[fv]
+							}
+						}
+						if len(nb) > 0 {
+							visit(sub, nb)
+						}
+					case *ssa.Store:
+						fv, ok := x.Addr.(*ssa.FreeVar)
+						if !ok || bind[fv] == nil {
+							continue
+						}
+						nStores++
+						okStore := neverNil(x.Val)
+						if !okStore {
+							// dominated by `result == nil`
+							okStore = HasFact(x, true, func(c ssa.Value) bool {
+								bo, isB := c.(*ssa.BinOp)
+								if !isB || bo.Op != token.EQL || !isNilConst(bo.Y) {
+									return false
+								}
+								ld, isL := bo.X.(*ssa.UnOp)
+								return isL && ld.Op == token.MUL && ld.X == ssa.Value(fv)
+							}) || HasFact(x, false, func(c ssa.Value) bool {
+								bo, isB := c.(*ssa.BinOp)
+								if !isB || bo.Op != token.NEQ || !isNilConst(bo.Y) {
+									return false
+								}
+								ld, isL := bo.X.(*ssa.UnOp)
+								return isL && ld.Op == token.MUL && ld.X == ssa.Value(fv)
+							})
+						}
+						r.Cond(okStore, rule, funcKey(fn)+" literal overwrites named error result", p.Pos(x.Pos()), "a deferred/inner function assigns the named error result without knowing it is nil: a failure (e.g. the whole-file checksum mismatch) can leave the function as success")
+					}
+				}
+			}
+		}
+		visit(fn, map[*ssa.FreeVar]*ssa.Alloc{})
+	}
+	r.OK(rule, "named error results scanned", "-", fmt.Sprintf("%d functions with named error results in cells, %d stores from literals", nFn, nStores))
 }
